@@ -19,13 +19,20 @@ CLAIMED = {
  'C08': ('exploration', 'property-based testing (proptest) with an exactly-once multiset oracle over the closure (SIM)',
          'Generated graphs with shared dependencies x duplicate requests x schedules.',
          'Closure computed by the harness from the generated graph.', 'DESIGN.md 4/C08'),
+ 'C10': ('exploration', 'property-based testing (proptest) of black-box exit scenarios: generated graph x exit cause x instant (rendezvous), latency bound and /proc marker-scan oracle',
+         'Generated scenarios against the real binary with real signals and processes.',
+         'One wall-clock bound (5 s vs scripts that sleep 28 h); exec-form scripts.', 'DESIGN.md 4/C10'),
  'C11': ('exploration', 'property-based testing (proptest) over service/build/aggregate graphs and schedules (SIM), keep-alive and alternation oracles',
          'Generated graphs x requested subsets x schedules (+ notices in watch mode).',
          'Virtual service processes (spawn/stop observed through hooks).', 'DESIGN.md 4/C11'),
+ 'C12': ('exploration', 'property-based testing (proptest) of generated trees and output declarations against the real binary; two-sided snapshot-diff oracle vs a reference expected-deleted set',
+         'Generated projects/trees x --clean invocations; everything expected gone is gone and everything else is byte-identical.',
+         'Listed output paths are never symlinks themselves; symlink entries to files matching a filter may go or stay.', 'DESIGN.md 4/C12'),
  'C17': ('exploration', 'property-based testing (proptest) with withheld completions (SIM): ready => started at message-quiescent points',
          'Generated graphs x schedules in which scripts stay running as long as possible.',
          'One-shot runs without failures.', 'DESIGN.md 4/C17'),
 }
+ENGINE = {'C10':'BB','C12':'BB','C04':'SIM+BB','C01':'SIM+BB','C07':'SIM+BB','C08':'SIM+BB','C11':'SIM+BB','C17':'SIM+BB'}
 ALL = [json.loads(l)['id'] for l in open('/verif/properties.jsonl')]
 NA_REASON = 'check not built yet in this session (work in progress; to be decided with property-based testing as designed in DESIGN.md)'
 
@@ -42,6 +49,7 @@ def main():
         'add_only': True,
       },
       'engines': [
+        {'name': 'BB', 'path': 'harness/incrate/verif/bb.rs', 'serves_properties': ['C01','C04','C07','C08','C10','C11','C12','C17'], 'kind_free_text': 'the real binary (repo main()) on generated projects; trace files, /proc scans, snapshots; cases generated and shrunk by proptest'},
         {'name': 'SIM', 'path': 'harness/incrate/verif/sim.rs', 'serves_properties': ['C01','C04','C06','C07','C08','C11','C17','C20'], 'kind_free_text': 'real actor code polled by a single-threaded executor; virtual processes; generated schedules (proptest)'},
       ],
       'checks': [],
@@ -57,7 +65,7 @@ def main():
               'thorough_cmd': f'./check {pid} --tier thorough',
               'evidence_file': f'/verif/evidence/{pid}.json',
               'replay_cmd_template': f'./check {pid} --replay {{path}}',
-              'engine': 'SIM',
+              'engine': ENGINE.get(pid,'SIM'),
               'level_claimed': {'category': level, 'text': text, 'design_ref': ref},
               'level_note': note,
               'technique': tech,
